@@ -388,7 +388,7 @@ class EdSim(core.Engine):
             keys = sorted(files.keys(), key=lambda p: os.path.normpath(os.path.abspath(p)))
             body_state['keys'] = list(keys)
             body_state['key_abs'] = [os.path.normpath(os.path.abspath(k)) for k in keys]
-            for op in ops:
+            for op_index, op in enumerate(ops):
                 if op['op'] == 'raise':
                     body_state['raised'] = True
                     raise BodyRaise('scripted failure')
@@ -415,7 +415,7 @@ class EdSim(core.Engine):
                     if new_key == k or new_key in files:
                         continue
                     files[new_key] = files.pop(k)     # the same file under another spelling of its path
-                    body_state.setdefault('rekeyed', []).append(a)
+                    body_state.setdefault('rekeyed_ops', set()).add(op_index)
                 elif op['op'] == 'add':
                     newp = op['path'].replace('{ROOT}', root)
                     files[newp] = parser().parse(op['text'], models.File)
@@ -535,7 +535,7 @@ class EdSim(core.Engine):
             rekeyed_now: list[str] = []
             popped: list[str] = []
             added: dict[str, str] = {}
-            for op in ops:
+            for op_index, op in enumerate(ops):
                 if op['op'] in ('edit', 'read', 'pop') and order:
                     p = order[op['k'] % len(order)]
                     if p in popped or p in rekeyed_now:
@@ -546,8 +546,8 @@ class EdSim(core.Engine):
                         popped.append(p)
                 elif op['op'] == 'rekey' and order:
                     p = order[op['k'] % len(order)]
-                    if p in body_state.get('rekeyed', []) and p not in popped and p not in rekeyed_now:
-                        rekeyed_now.append(p)
+                    if op_index in body_state.get('rekeyed_ops', set()) and p not in popped and p not in rekeyed_now:
+                        rekeyed_now.append(p)     # (mirrors exactly the re-keyings the body really performed)
                 elif op['op'] == 'add':
                     newp = op['path'].replace('{ROOT}', root)
                     added[os.path.normpath(os.path.join(cwd, newp))] = print_model(parser().parse(op['text'], models.File))
